@@ -10,12 +10,12 @@ def run(args, prop="C15", reps=1, finish=True):
     rep = C.Report(prop)
     thorough = C.tier() == "thorough"
     rnd = random.Random(C.seed())
-    nsl = 4 if thorough else 8
+    nsl = 16 if thorough else 16
     if prop != "C15":      # (C14 repeats every graph: a smaller part of the space)
-        nsl = 24 if thorough else 48
+        nsl = 96 if thorough else 192
     rep.cov["rule"] = ("module graphs enumerated by TLC from HmsLink (3 modules, contested function name f private / pub / "
                        "absent per module, globals x and hist and helper h in every module, every import list incl. private "
-                       "items, missing items, a missing module and cycles; 165888 graphs, this run %s of them): per import "
+                       "items, missing items, a missing module and cycles; 663552 graphs, this run %s of them): per import "
                        "item the specified verdict, for accepted graphs the specified output; analysed once and run on both "
                        "backends; import statements in 2 (thorough: 3) different orders; non-trivial = distinct rendered graphs" % ("all" if thorough else "1/%d" % nsl))
     seen = {}
